@@ -262,6 +262,7 @@ SHAPED_ROUTES = ['iterable', 'model', 'comparison', 'iterable_offset',      # on
                  'marked_later',                                            # plain, then lhs.mark_discrete()
                  'discrete',                                                # add_discrete
                  'discrete_edited',                                         # add_discrete, then an edit of the lhs
+                 'discrete_soft', 'discrete_soft',                          # add_discrete, then lhs.set_weight(w, penalty): marked AND soft (r6 C09 m3)
                  'near_sum2', 'near_le', 'near_coeff', 'near_extra']        # almost one-hot
 
 
@@ -289,7 +290,7 @@ def add_shaped(rng, d, label_pool):
         if j >= len(labels):
             break
         route = rng.choice(SHAPED_ROUTES)
-        will_mark = route in ('marked_later', 'discrete', 'discrete_unmarked', 'discrete_edited')
+        will_mark = route in ('marked_later', 'discrete', 'discrete_unmarked', 'discrete_edited', 'discrete_soft')
         cand = [v for v in bins if not (will_mark and json.dumps(v, sort_keys=True) in marked_used)]
         if len(cand) < 2:
             continue
@@ -324,8 +325,10 @@ def apply_shaped(cqm, items):
             cqm.add_constraint_from_model(qm, '==', 1, label=lab)
         elif r == 'comparison':
             cqm.add_constraint(sum(dimod.Binary(v) for v in vs) == 1, label=lab)
-        elif r in ('discrete', 'discrete_unmarked', 'discrete_edited'):
+        elif r in ('discrete', 'discrete_unmarked', 'discrete_edited', 'discrete_soft'):
             cqm.add_discrete(vs, label=lab)
+            if r == 'discrete_soft':
+                cqm.constraints[lab].lhs.set_weight(1.5 + len(vs), penalty='quadratic' if len(vs) % 2 else 'linear')
             if r == 'discrete_unmarked':
                 cqm.constraints[lab].lhs.mark_discrete(False)
             elif r == 'discrete_edited':
